@@ -116,6 +116,10 @@ def inline(files, root="a.json", max_depth=40):
 SAFE_TITLES = ["Widget", "my title", "a1b", "Thing", "widget", "Widget", "Widget_1", "widget_1", "Thing_1", "Widget_2"]
 DESCRIPTIONS = ["plain", 'He said "hi"', "back\\slash", 'trailing"', "two\nlines", "", "日本 é", '"""']
 FILES = ["a.json", "b.json", "c.json"]
+# string literals that end up inside the generated module text: quotes of every kind, names the import
+# inference looks for
+HOSTILE_LITERALS = ['"' * 3, 'a' + '"' * 3 + 'b', "'" * 3, "\\", 'He said "hi"', "List", "Union[", "Maybe", "Any",
+                    "Property", "'" * 3 + '"' * 3]
 
 
 class DCfg:
@@ -135,9 +139,11 @@ def leaf(draw, cfg):
         elif t in ("integer", "number"):
             s[draw(st.sampled_from(["minimum", "maximum"]))] = draw(jv.ints)
         elif t is None:
-            s["enum"] = draw(st.lists(jv.scalars, min_size=1, max_size=3))
+            s["enum"] = draw(st.lists(st.one_of(jv.scalars, st.sampled_from(HOSTILE_LITERALS)), min_size=1, max_size=3))
     if draw(st.integers(0, 5)) == 0:
-        s["default"] = draw(st.one_of(jv.scalars, st.sampled_from([False, 0, "", [], {}])))
+        s["default"] = draw(st.one_of(jv.scalars, st.sampled_from([False, 0, "", [], {}] + HOSTILE_LITERALS[:3])))
+    if draw(st.integers(0, 9)) == 0:
+        s["const"] = draw(st.sampled_from(HOSTILE_LITERALS + [1, None]))
     return s
 
 
